@@ -3,7 +3,7 @@ import QV.C02.LemmasDelay
 import QV.C02.LemmasWave
 import QV.C02.LemmasCall
 /-!
-C02 lemmas, part 6 (core Lean only): the proved subset `provedKind` — dispatch of the per-kind lemmas, "prints
+C02 lemmas, part 6 (core Lean only): the proved subset `lineKind` — dispatch of the per-kind lemmas, "prints
 on one line", "prints without error".
 -/
 namespace QV.C02
@@ -11,8 +11,8 @@ open QV QV.Tok QV.Ast QV.Parse QV.Print QV.ExprPrint QV.ExprRoundTrip
 
 /-- the per-kind round-trip lemmas, dispatched: every `Parsed` instruction of a proved kind round-trips to
 itself at every depth budget -/
-theorem rt_of_provedKind (F : NumFmt) (d : Nat) (i : Instruction) (hp : parsedInstr i = true)
-    (hk : provedKind i = true) (hn : numTokInstr F i = true) (hd : (toks F i).length ≤ d) :
+theorem rt_of_lineKind (F : NumFmt) (d : Nat) (i : Instruction) (hp : parsedInstr i = true)
+    (hk : lineKind i = true) (hn : numTokInstr F i = true) (hd : (toks F i).length ≤ d) :
     RT F d i (canonInstr i) := by
   cases i with
   | capture a => exact rt_capture F d a hp hn hd
@@ -30,7 +30,7 @@ theorem rt_of_provedKind (F : NumFmt) (d : Nat) (i : Instruction) (hp : parsedIn
         simp only at h2
         simp [callArgOkP, immOk, h1.1, h1.2, h2]
       | _ => rfl
-    have := rt_call F d c hok (by simpa [provedKind] using hk)
+    have := rt_call F d c hok (by simpa [lineKind] using hk)
     simpa [canonInstr] using this
   | pulse a => exact rt_pulse F d a hp hn hd
   | arithmetic a => exact rt_arithmetic F d a hp
@@ -63,8 +63,8 @@ theorem rt_of_provedKind (F : NumFmt) (d : Nat) (i : Instruction) (hp : parsedIn
   | shiftPhase a => exact rt_shiftPhase F d a hp hn hd
   | swapPhases a => exact rt_swapPhases F d a hp
   | delay a => exact rt_delay F d a hp hn hd
-  | rawCapture a => exact rt_rawCapture F d a hp hn (by simpa [provedKind] using hk) hd
-  | _ => simp [provedKind] at hk
+  | rawCapture a => exact rt_rawCapture F d a hp hn (by simpa [lineKind] using hk) hd
+  | _ => simp [lineKind] at hk
 
 theorem nl_intToks (v : Int) : Token.newLine ∉ intToks v := by
   unfold intToks; split <;> simp
@@ -195,7 +195,7 @@ theorem nl_params (F : NumFmt) (ps : List PExpr) (h : ps.all (numTokOk F) = true
     exact nl_printTop F e (List.all_eq_true.mp h e he)
 
 /-- instructions of the proved kinds print on one line: no `newLine` among their raw tokens -/
-theorem noNL_of_provedKind (F : NumFmt) (i : Instruction) (hk : provedKind i = true)
+theorem noNL_of_lineKind (F : NumFmt) (i : Instruction) (hk : lineKind i = true)
     (hn : numTokInstr F i = true) : Token.newLine ∉ toks F i := by
   cases i with
   | gate g =>
@@ -274,7 +274,7 @@ theorem noNL_of_provedKind (F : NumFmt) (i : Instruction) (hk : provedKind i = t
     obtain ⟨q⟩ := a
     cases q <;> simp [toks, cmd, nl_qubit]
   | _ =>
-    simp [provedKind] at hk <;>
+    simp [lineKind] at hk <;>
     simp [toks, cmd, nl_memRefToks, nl_arith, nl_comp, nl_bin, nl_qubits, nl_qubit, nl_target, nl_measureName,
       identTok, strTok, vectorToks]
 
@@ -296,7 +296,7 @@ theorem qubitsErr_none (qs : List Qubit) (h : qs.all noPlaceholder = true) : qub
   cases q <;> simp_all [noPlaceholder, qubitErr]
 
 /-- printing a `Parsed` instruction of a proved kind meets no placeholder -/
-theorem firstErr_none_of_provedKind (i : Instruction) (hp : parsedInstr i = true) (hk : provedKind i = true) :
+theorem firstErr_none_of_lineKind (i : Instruction) (hp : parsedInstr i = true) (hk : lineKind i = true) :
     firstErr i = none := by
   cases i with
   | fence a => simp only [parsedInstr] at hp; simp [firstErr, qubitsErr_none _ hp]
@@ -330,7 +330,7 @@ theorem firstErr_none_of_provedKind (i : Instruction) (hp : parsedInstr i = true
     simp only [parsedInstr, frameOk, Bool.and_eq_true] at hp; simp [firstErr, frameErr, qubitsErr_none _ hp.1.2]
   | rawCapture a =>
     simp only [parsedInstr, frameOk, Bool.and_eq_true] at hp; simp [firstErr, frameErr, qubitsErr_none _ hp.1.2]
-  | _ => first | rfl | (simp [provedKind] at hk)
+  | _ => first | rfl | (simp [lineKind] at hk)
 
 theorem length_toks_le_programRaw (F : NumFmt) (L : List Instruction) (i : Instruction) (hi : i ∈ L) :
     (toks F i).length ≤ (programRaw F L).length := by
@@ -352,7 +352,7 @@ theorem firstErrList_none (L : List Instruction) (h : ∀ i ∈ L, firstErr i = 
     simp [firstErrList, firstSome, h i (by simp), ih (fun j hj => h j (by simp [hj]))]
 
 /-- the canonical form prints like the original (the printer sorts anyway) -/
-theorem toks_canonInstr (F : NumFmt) (i : Instruction) (hp : parsedInstr i = true) (hk : provedKind i = true) :
+theorem toks_canonInstr (F : NumFmt) (i : Instruction) (hp : parsedInstr i = true) (hk : lineKind i = true) :
     toks F (canonInstr i) = toks F i := by
   have hinv : ∀ w : WaveformInvocation, invocationOk w = true →
       invocationToks F (canonInvocation w) = invocationToks F w := by
@@ -375,25 +375,30 @@ theorem toks_canonInstr (F : NumFmt) (i : Instruction) (hp : parsedInstr i = tru
   | pulse c =>
     simp only [parsedInstr, Bool.and_eq_true] at hp
     simp [canonInstr, toks, hinv _ hp.2]
-  | calibrationDefinition _ _ => simp [provedKind] at hk
-  | measureCalibrationDefinition _ _ => simp [provedKind] at hk
-  | circuitDefinition _ _ _ _ => simp [provedKind] at hk
+  | calibrationDefinition _ _ => simp [lineKind] at hk
+  | measureCalibrationDefinition _ _ => simp [lineKind] at hk
+  | circuitDefinition _ _ _ _ => simp [lineKind] at hk
   | _ => simp [canonInstr]
 
-theorem firstErr_canonInstr (i : Instruction) (hk : provedKind i = true) : firstErr (canonInstr i) = firstErr i := by
+theorem firstErr_canonInstr (i : Instruction) (hk : lineKind i = true) : firstErr (canonInstr i) = firstErr i := by
   cases i with
-  | calibrationDefinition _ _ => simp [provedKind] at hk
-  | measureCalibrationDefinition _ _ => simp [provedKind] at hk
-  | circuitDefinition _ _ _ _ => simp [provedKind] at hk
+  | calibrationDefinition _ _ => simp [lineKind] at hk
+  | measureCalibrationDefinition _ _ => simp [lineKind] at hk
+  | circuitDefinition _ _ _ _ => simp [lineKind] at hk
   | _ => simp [canonInstr, firstErr, canonInvocation]
 
 theorem programRaw_map_canon (F : NumFmt) (L : List Instruction) (hp : ∀ i ∈ L, parsedInstr i = true)
-    (hk : ∀ i ∈ L, provedKind i = true) : programRaw F (L.map canonInstr) = programRaw F L := by
+    (hk : ∀ i ∈ L, lineKind i = true) : programRaw F (L.map canonInstr) = programRaw F L := by
   induction L with
   | nil => rfl
   | cons i L ih =>
     simp only [programRaw, List.map_cons, List.flatMap_cons] at ih ⊢
     rw [toks_canonInstr F i (hp i (by simp)) (hk i (by simp)),
       ih (fun j hj => hp j (by simp [hj])) (fun j hj => hk j (by simp [hj]))]
+
+theorem blockOk_of_lineKind (F : NumFmt) (i : Instruction) (hk : lineKind i = true)
+    (hn : numTokInstr F i = true) : blockOk (toks F i) = true := by
+  obtain ⟨t, r, ht, _⟩ := toks_head F i
+  exact blockOk_of_noNL _ (by rw [ht]; simp) (fun t ht h => noNL_of_lineKind F i hk hn (h ▸ ht))
 
 end QV.C02
